@@ -335,6 +335,10 @@ func VerticalZoom(inputZoom int64, vIndex int64, outputZoom int64) []string {
 		verticalIDs = append(
 			verticalIDs,
 			strconv.FormatInt(outputZoom, 10)+"/"+strconv.FormatInt(v, 10))
+		if v == maxVparam {
+			// v++ は math.MaxInt64 で桁あふれして負になり、ループが終了しなくなるため明示的に終了する
+			break
+		}
 	}
 	return verticalIDs
 }
